@@ -355,11 +355,19 @@ def _make_twin(default, tag):
         b: Any = default
         def __post_init__(self): CALLS.append(("post_init", tag, self.a))
     return Twin
+def _make_attrs_twin(default, tag):
+    @attr.s(auto_attribs=True)
+    class Twin:
+        a: int
+        b: Any = default
+        def __attrs_post_init__(self): CALLS.append(("post_init", tag, self.a))
+    return Twin
 TWIN_DEFAULTS = ((3, 10), (True, Decimal("1")), (0, False), ((), []), (Decimal(0), Fraction(0)))
 TWINS = []
 for _d1, _d2 in TWIN_DEFAULTS:
     for _order in (0, 1):
-        _T1, _T2 = _make_twin(_d1, 1), (_make_twin(_d2, 2) if not isinstance(_d2, list) else _make_twin(_d1 + (1,), 2))
+      for _mk in (_make_twin, _make_attrs_twin):          # dataclass twins and attrs twins (attrs Attribute objects compare by value)
+        _T1, _T2 = _mk(_d1, 1), (_mk(_d2, 2) if not isinstance(_d2, list) else _mk(_d1 + (1,), 2))
         _r = Retort()
         _lds = [_r.get_loader(_T1), _r.get_loader(_T2)] if _order == 0 else list(reversed([_r.get_loader(_T2), _r.get_loader(_T1)]))
         TWINS.append(((_T1, _T2), _lds))
@@ -377,6 +385,32 @@ def twins(ti, which, present, a, b):
     del CALLS[:]
     if present: return obj.b is b or obj.b == b
     return same_default(obj.b, exp.b)
+
+# ---- attrs class with a hand-written __init__ whose signature defaults differ from the attribute defaults: the CONSTRUCTOR's defaults count
+@attr.define
+class CI:
+    a: int
+    retries: int = 3
+    tags: list = attr.Factory(list)
+    _queue: str = "default"
+    def __init__(self, a: int, retries: int = 5, tags: list = ("urgent",), queue: str = "bulk"):
+        CALLS.append(("init", a, retries, tuple(tags), queue))
+        self.__attrs_init__(a, retries, list(tags), queue)
+CI_LD = {dt: Retort(debug_trail=dt).get_loader(CI) for dt in DT_MODES}
+def custom_init_defaults(pr, pt, pq, a, r, t):
+    for dt in DT_MODES:
+        data = {"a": a}
+        if pr: data["retries"] = r
+        if pt: data["tags"] = [t]
+        if pq: data["_queue"] = "q"
+        del CALLS[:]
+        o = outcome(CI_LD[dt], data)
+        if o[0] != "ok" or len(CALLS) != 1: return False
+        obj = o[2]
+        model = CI(a, **({"retries": r} if pr else {}), **({"tags": [t]} if pt else {}), **({"queue": "q"} if pq else {}))
+        del CALLS[:]
+        if (obj.a, obj.retries, obj.tags, obj._queue) != (model.a, model.retries, model.tags, model._queue): return False
+    return True
 
 # ---- default factories: fresh result for each loaded object
 @dataclasses.dataclass
@@ -468,7 +502,10 @@ def build(tier, seed):
           bounds="3 recipes (trimmed underscore, camelCase, map with a nested path) x presence bits x symbolic ints; 3 debug modes; constructor called once")
     me.ob("look_alike_classes", "ti: int, which: bool, present: bool, a: int, b: int", "return twins(ti, which, present, a, b)", pre=["0 <= ti < NTW"], timeout=tmo,
           family="two distinct model classes with the same name, module and fields on one retort: each loaded by its own constructor with its own defaults",
-          bounds="5 pairs of defaults (equal-looking and different) x both request orders x which class x presence bit x symbolic ints")
+          bounds="5 pairs of defaults (equal-looking and different) x dataclass / attrs x both request orders x which class x presence bit x symbolic ints")
+    me.ob("custom_init_defaults", "pr: bool, pt: bool, pq: bool, a: int, r: int, t: int", "return custom_init_defaults(pr, pt, pq, a, r, t)", timeout=tmo,
+          family="attrs class with a hand-written __init__ whose signature defaults differ from the attribute defaults: an omitted field holds what the model itself would produce",
+          bounds="all presence patterns of 3 optional parameters (int, list, renamed private attribute); symbolic ints; 3 debug modes; constructor called once")
     me.ob("param_kinds", "pb: bool, pc: bool, pd: bool, pe: bool, a: int, b: int, c: int, d: int, e: int, f: int",
           "return pk(pb, pc, pd, pe, a, b, c, d, e, f)", timeout=tmo,
           family="end-to-end: positional-only / keyword-only parameters with skipped optionals",
